@@ -158,6 +158,205 @@ Proof.
   rewrite Forall_forall in F. specialize (F a Hin). lia.
 Qed.
 
+(* ---- the constructors' float32 arithmetic: NewTinyLfu / NewSlru never produce a window below 1 or above the capacity
+   (so that mainSize := size - windowSize does not wrap), a negative protected capacity, or capacities that add up to
+   2^61 or more - which is all the policy invariant needs of them (c07_init). *)
+
+(* a nonnegative finite float x with x * den <= num, decided on mantissa and exponent *)
+Definition le_rat_b (x : f32) (num den : Z) : bool :=
+  match x with
+  | B754_zero _ => (0 <=? num)%Z
+  | B754_finite false m e _ => (e <=? 0)%Z && (Zpos m * den <=? num * 2 ^ (- e))%Z
+  | _ => false
+  end.
+
+Lemma le_rat_ok (x : f32) num den : (0 < den)%Z -> le_rat_b x num den = true ->
+  is_finite x = true /\ 0 <= B2R32 x /\ B2R32 x * IZR den <= IZR num.
+Proof.
+  intros Hd H. destruct x as [s|s| |s m e pf]; cbn [le_rat_b] in H; try discriminate.
+  - apply Z.leb_le in H. split; [reflexivity|]. cbn [B2R]. split; [lra|]. rewrite Rmult_0_l. apply IZR_le, H.
+  - destruct s; [discriminate|]. apply andb_prop in H. destruct H as [He Hm].
+    apply Z.leb_le in He. apply Z.leb_le in Hm. split; [reflexivity|].
+    cbn [B2R]. unfold F2R. cbn [Fnum Fexp cond_Zopp].
+    assert (Pe : 0 < bpow radix2 e) by apply bpow_gt_0.
+    split; [apply Rmult_le_pos; [apply IZR_le; lia|lra]|].
+    apply IZR_le in Hm. rewrite !mult_IZR in Hm.
+    change 2%Z with (radix_val radix2) in Hm. rewrite IZR_Zpower in Hm by lia.
+    assert (E : bpow radix2 (- e) * bpow radix2 e = 1) by (rewrite <- bpow_plus; replace (- e + e)%Z with 0%Z by lia; reflexivity).
+    set (a := IZR (Z.pos m)) in *. set (d := IZR den) in *. set (n := IZR num) in *.
+    set (be := bpow radix2 e) in *. set (bme := bpow radix2 (- e)) in *.
+    replace (a * be * d) with ((a * d) * be) by ring.
+    apply Rle_trans with ((n * bme) * be); [apply Rmult_le_compat_r; [lra|exact Hm]|].
+    rewrite Rmult_assoc, E. lra.
+Qed.
+
+Lemma k_window_small : is_finite k_window = true /\ 0 <= B2R32 k_window /\ B2R32 k_window * 64 <= 1.
+Proof. apply (le_rat_ok k_window 1 64); [lia|vm_compute; reflexivity]. Qed.
+
+Lemma k_protected_small : is_finite k_protected = true /\ 0 <= B2R32 k_protected /\ B2R32 k_protected * 8 <= 7.
+Proof. apply (le_rat_ok k_protected 7 8); [lia|vm_compute; reflexivity]. Qed.
+
+(* products bounded by an arbitrary representable number *)
+Lemma mul_le (x y : f32) (Y : R) : is_finite x = true -> is_finite y = true ->
+  generic_format radix2 fexp32 Y -> Y < bpow radix2 128 -> Rabs (B2R32 x * B2R32 y) <= Y ->
+  is_finite (f32_mul x y) = true /\ Rabs (B2R32 (f32_mul x y)) <= Y.
+Proof.
+  intros Fx Fy GY LY Hb. unfold f32_mul.
+  pose proof (Bmult_correct 24 128 prec32 pmax32 mode_NE x y) as H.
+  assert (Hr : Rabs (round radix2 fexp32 (round_mode mode_NE) (B2R32 x * B2R32 y)) <= Y)
+    by (apply abs_round_le_generic; [apply fexp_correct; reflexivity|apply valid_rnd_round_mode|exact GY|exact Hb]).
+  rewrite Rlt_bool_true in H by (eapply Rle_lt_trans; [exact Hr|exact LY]).
+  destruct H as (HR & HF & _). split; [rewrite HF, Fx, Fy; reflexivity|rewrite HR; exact Hr].
+Qed.
+
+Lemma mul_nonneg (x y : f32) : is_finite x = true -> is_finite y = true ->
+  0 <= B2R32 x -> 0 <= B2R32 y -> Rabs (B2R32 x * B2R32 y) <= Bound -> 0 <= B2R32 (f32_mul x y).
+Proof.
+  intros Fx Fy Px Py Hb. unfold f32_mul.
+  pose proof (Bmult_correct 24 128 prec32 pmax32 mode_NE x y) as H.
+  pose proof (round_small _ Hb) as Hr.
+  rewrite Rlt_bool_true in H by (eapply Rle_lt_trans; [exact Hr|exact bound_lt_emax]).
+  destruct H as (HR & _). rewrite HR.
+  apply round_ge_generic; [apply fexp_correct; reflexivity|apply valid_rnd_round_mode|apply generic_format_0|].
+  apply Rmult_le_pos; assumption.
+Qed.
+
+Lemma ofZ_nonneg (n : Z) : (0 <= n < 2 ^ 61)%Z -> 0 <= B2R32 (f32_of_Z n).
+Proof.
+  intro Hc. unfold f32_of_Z.
+  pose proof (binary_normalize_correct 24 128 prec32 pmax32 mode_NE n 0 false) as H. cbv zeta in H.
+  assert (Hx : Rabs (F2R (Float radix2 n 0)) <= Bound).
+  { unfold F2R. cbn [Fnum Fexp bpow]. rewrite Rmult_1_r, <- abs_IZR. unfold Bound.
+    change 2%Z with (radix_val radix2) in Hc. rewrite <- IZR_Zpower by lia. apply IZR_le. rewrite Z.abs_eq by lia. lia. }
+  pose proof (round_small _ Hx) as Hr.
+  rewrite Rlt_bool_true in H by (eapply Rle_lt_trans; [exact Hr|exact bound_lt_emax]).
+  destruct H as (HR & _). rewrite HR.
+  apply round_ge_generic; [apply fexp_correct; reflexivity|apply valid_rnd_round_mode|apply generic_format_0|].
+  unfold F2R. cbn [Fnum Fexp bpow]. rewrite Rmult_1_r. apply IZR_le. lia.
+Qed.
+
+(* uint(x) of a finite float with 0 <= x <= Y, Y an integer below 2^63 *)
+Lemma to_uint_bounds (x : f32) (Yz : Z) : is_finite x = true -> 0 <= B2R32 x <= IZR Yz -> (Yz < 2 ^ 63)%Z ->
+  (0 <= f32_to_uint x <= Yz)%Z.
+Proof.
+  intros F [P B] HY.
+  assert (GI : forall z : Z, generic_format radix2 (FIX_exp 0) (IZR z)).
+  { intro z. apply generic_format_FIX. exists (Float radix2 z 0); [unfold F2R; cbn [Fnum Fexp bpow]; lra|reflexivity]. }
+  assert (T : (0 <= Btrunc x <= Yz)%Z).
+  { split; apply le_IZR; rewrite Btrunc_correct by exact pmax32.
+    - apply round_ge_generic; [apply FIX_exp_valid|apply valid_rnd_ZR|exact (GI 0%Z)|exact P].
+    - apply round_le_generic; [apply FIX_exp_valid|apply valid_rnd_ZR|exact (GI Yz)|exact B]. }
+  assert (Hr : f32_to_uint x = Btrunc x).
+  { destruct x as [s|s| |s m e pf]; try discriminate F; unfold f32_to_uint;
+      (destruct ((0 <=? _)%Z && (_ <? two63c)%Z) eqn:E; [reflexivity|]);
+      apply andb_false_iff in E; unfold two63c in E; destruct E as [E|E];
+      [apply Z.leb_gt in E|apply Z.ltb_ge in E| apply Z.leb_gt in E|apply Z.ltb_ge in E]; lia. }
+  rewrite Hr. exact T.
+Qed.
+
+(* round(n) <= 2 * 2^(log2 n) for n >= 1: the next power of two is representable *)
+Lemma ofZ_le_pow (n : Z) : (1 <= n < 2 ^ 61)%Z ->
+  is_finite (f32_of_Z n) = true /\ Rabs (B2R32 (f32_of_Z n)) <= bpow radix2 (Z.log2 n + 1).
+Proof.
+  intro Hc. unfold f32_of_Z.
+  pose proof (binary_normalize_correct 24 128 prec32 pmax32 mode_NE n 0 false) as H. cbv zeta in H.
+  pose proof (Z.log2_spec n ltac:(lia)) as [L1 L2].
+  assert (L0 : (0 <= Z.log2 n < 61)%Z) by (split; [apply Z.log2_nonneg|apply Z.log2_lt_pow2; lia]).
+  assert (Hx : Rabs (F2R (Float radix2 n 0)) <= bpow radix2 (Z.log2 n + 1)).
+  { unfold F2R. cbn [Fnum Fexp bpow]. rewrite Rmult_1_r, <- abs_IZR.
+    rewrite <- IZR_Zpower by lia. apply IZR_le. rewrite Z.abs_eq by lia. change (radix_val radix2) with 2%Z.
+    replace (Z.log2 n + 1)%Z with (Z.succ (Z.log2 n)) by lia. lia. }
+  assert (Hr : Rabs (round radix2 fexp32 (round_mode mode_NE) (F2R (Float radix2 n 0))) <= bpow radix2 (Z.log2 n + 1)).
+  { apply abs_round_le_generic; [apply fexp_correct; reflexivity|apply valid_rnd_round_mode| |exact Hx].
+    apply generic_format_bpow. unfold FLT_exp. lia. }
+  rewrite Rlt_bool_true in H by (eapply Rle_lt_trans; [exact Hr|apply bpow_lt; lia]).
+  destruct H as (HR & HF & _). split; [exact HF|]. rewrite HR. exact Hr.
+Qed.
+
+Lemma init_window_ok size : (1 <= size < 2 ^ 61)%Z -> (1 <= init_window size <= size)%Z /\ (init_window size <= 2 ^ 55)%Z.
+Proof.
+  intro Hs. unfold init_window.
+  destruct k_window_small as (Fk & Pk & Bk).
+  destruct (ofZ_le_pow size Hs) as (Fn & Bn).
+  pose proof (ofZ_nonneg size ltac:(lia)) as Pn.
+  pose proof (Z.log2_spec size ltac:(lia)) as [L1 L2].
+  assert (L0 : (0 <= Z.log2 size < 61)%Z) by (split; [apply Z.log2_nonneg|apply Z.log2_lt_pow2; lia]).
+  (* the product is at most 2^(log2 size + 1) / 64 <= 2^(log2 size) <= size, and that power of two is representable *)
+  set (Y := bpow radix2 (Z.log2 size)).
+  assert (PB : Rabs (B2R32 (f32_of_Z size) * B2R32 k_window) <= Y).
+  { rewrite Rabs_mult, (Rabs_pos_eq (B2R32 k_window)) by exact Pk.
+    assert (E : bpow radix2 (Z.log2 size + 1) = 2 * Y) by (unfold Y; rewrite bpow_plus; cbn; lra).
+    rewrite E in Bn. assert (0 < Y) by apply bpow_gt_0.
+    apply Rle_trans with (2 * Y * B2R32 k_window); [apply Rmult_le_compat_r; assumption|]. nra. }
+  assert (GY : generic_format radix2 fexp32 Y) by (apply generic_format_bpow; unfold FLT_exp; lia).
+  assert (LY : Y < bpow radix2 128) by (apply bpow_lt; lia).
+  destruct (mul_le _ _ Y Fn Fk GY LY PB) as (Fm & Bm).
+  assert (PBb : Rabs (B2R32 (f32_of_Z size) * B2R32 k_window) <= Bound).
+  { eapply Rle_trans; [exact PB|]. unfold Y, Bound. apply bpow_le. lia. }
+  pose proof (mul_nonneg _ _ Fn Fk Pn Pk PBb) as Pm.
+  rewrite Rabs_pos_eq in Bm by exact Pm.
+  assert (YZ : Y = IZR (2 ^ Z.log2 size)) by (unfold Y; change 2%Z with (radix_val radix2); rewrite IZR_Zpower by lia; reflexivity).
+  assert (P2 : (2 ^ Z.log2 size < 2 ^ 63)%Z) by (apply Z.pow_lt_mono_r; lia).
+  pose proof (to_uint_bounds _ (2 ^ Z.log2 size) Fm ltac:(rewrite <- YZ; split; [exact Pm|exact Bm]) P2) as [U1 U2].
+  (* and at most 2^55 *)
+  assert (PB55 : Rabs (B2R32 (f32_of_Z size) * B2R32 k_window) <= bpow radix2 55).
+  { rewrite Rabs_mult, (Rabs_pos_eq (B2R32 k_window)) by exact Pk.
+    destruct (ofZ_small size ltac:(lia)) as (_ & B61). unfold Bound in B61.
+    assert (E : bpow radix2 61 = 64 * bpow radix2 55) by (change (bpow radix2 61) with (bpow radix2 (6 + 55)); rewrite bpow_plus; change (bpow radix2 6) with 64; reflexivity).
+    rewrite E in B61. assert (0 < bpow radix2 55) by apply bpow_gt_0.
+    apply Rle_trans with (64 * bpow radix2 55 * B2R32 k_window); [apply Rmult_le_compat_r; assumption|]. nra. }
+  assert (G55 : generic_format radix2 fexp32 (bpow radix2 55)) by (apply generic_format_bpow; unfold FLT_exp; lia).
+  destruct (mul_le _ _ _ Fn Fk G55 ltac:(apply bpow_lt; lia) PB55) as (_ & Bm55).
+  rewrite Rabs_pos_eq in Bm55 by exact Pm.
+  assert (Y55 : bpow radix2 55 = IZR (2 ^ 55)) by (change 2%Z with (radix_val radix2); rewrite IZR_Zpower by lia; reflexivity).
+  pose proof (to_uint_bounds _ (2 ^ 55) Fm ltac:(rewrite <- Y55; split; [exact Pm|exact Bm55]) ltac:(lia)) as [_ U55].
+  destruct (Z.ltb_spec (f32_to_uint (f32_mul (f32_of_Z size) k_window)) 1); lia.
+Qed.
+
+Lemma init_main_ok size : (1 <= size < 2 ^ 61)%Z -> init_main size = (size - init_window size)%Z /\ (0 <= init_main size < 2 ^ 61)%Z.
+Proof.
+  intro Hs. destruct (init_window_ok size Hs) as ([W1 W2] & _). unfold init_main.
+  rewrite Z.mod_small by lia. lia.
+Qed.
+
+Lemma init_protected_ok size : (1 <= size < 2 ^ 61)%Z -> (0 <= init_protected size <= 2 ^ 61 - 2 ^ 58)%Z.
+Proof.
+  intro Hs. destruct (init_main_ok size Hs) as (_ & M). unfold init_protected.
+  set (main := init_main size) in *.
+  destruct k_protected_small as (Fk & Pk & Bk).
+  destruct (ofZ_small main ltac:(lia)) as (Fn & B61). unfold Bound in B61.
+  pose proof (ofZ_nonneg main ltac:(lia)) as Pn.
+  set (Y := F2R (Float radix2 7 58)).
+  assert (YE : Y = 7 * bpow radix2 58) by (unfold Y, F2R; cbn [Fnum Fexp]; reflexivity).
+  assert (E61 : bpow radix2 61 = 8 * bpow radix2 58) by (change (bpow radix2 61) with (bpow radix2 (3 + 58)); rewrite bpow_plus; change (bpow radix2 3) with 8; reflexivity).
+  assert (P58 : 0 < bpow radix2 58) by apply bpow_gt_0.
+  assert (PB : Rabs (B2R32 (f32_of_Z main) * B2R32 k_protected) <= Y).
+  { rewrite Rabs_mult, (Rabs_pos_eq (B2R32 k_protected)) by exact Pk. rewrite E61 in B61. rewrite YE.
+    apply Rle_trans with (8 * bpow radix2 58 * B2R32 k_protected); [apply Rmult_le_compat_r; assumption|]. nra. }
+  assert (GY : generic_format radix2 fexp32 Y).
+  { apply generic_format_FLT. exists (Float radix2 7 58); [reflexivity|cbn; lia|cbn; lia]. }
+  assert (LY : Y < bpow radix2 128).
+  { rewrite YE. apply Rlt_trans with (bpow radix2 61); [rewrite E61; lra|apply bpow_lt; lia]. }
+  destruct (mul_le _ _ Y Fn Fk GY LY PB) as (Fm & Bm).
+  assert (PBb : Rabs (B2R32 (f32_of_Z main) * B2R32 k_protected) <= Bound).
+  { eapply Rle_trans; [exact PB|]. unfold Bound. rewrite YE, E61. lra. }
+  pose proof (mul_nonneg _ _ Fn Fk Pn Pk PBb) as Pm.
+  rewrite Rabs_pos_eq in Bm by exact Pm.
+  assert (YZ : Y = IZR (2 ^ 61 - 2 ^ 58)).
+  { rewrite YE. replace (2 ^ 61 - 2 ^ 58)%Z with (7 * 2 ^ 58)%Z by lia. rewrite mult_IZR.
+    reflexivity. }
+  exact (to_uint_bounds _ (2 ^ 61 - 2 ^ 58) Fm ltac:(rewrite <- YZ; split; [exact Pm|exact Bm]) ltac:(lia)).
+Qed.
+
+(* what c07_init asks of the constructor *)
+Lemma constructor_capacities_ok size : (1 <= size < 2 ^ 61)%Z ->
+  (1 <= init_window size <= size)%Z /\ (0 <= init_protected size)%Z /\ (init_window size + init_protected size < 2 ^ 61)%Z /\
+  init_main size = (size - init_window size)%Z.
+Proof.
+  intro Hs. destruct (init_window_ok size Hs) as (W & W55). destruct (init_protected_ok size Hs) as [P1 P2].
+  destruct (init_main_ok size Hs) as (M & _). repeat split; try lia; exact M.
+Qed.
+
 (* the restart rule as written: the step is reset to its full size, in the current direction, exactly when the hit
    ratio of the sample moved by at least the threshold in EITHER direction; otherwise it decays *)
 Lemma climber_shape_as_written : c_climb_restart = (true, 1%Z, 20%Z).
